@@ -349,7 +349,18 @@ static var Type_Scan(var self, var cls) {
   struct Type* t;
   
   t = (struct Type*)self + CELLO_NBUILTINS; 
-  while (t->name) { if (t->cls is cls) { return t->inst; } t++; }
+  while (t->name) {
+    if (t->cls is cls) {
+      /*
+      **  The memo is only an address. A class created at run time can be
+      **  deleted and another class allocated in its place, so the hit counts
+      **  only if the entry is for a class of this name; a stale memo is dropped.
+      */
+      if (strcmp(t->name, Type_Builtin_Name(cls)) is 0) { return t->inst; }
+      t->cls = NULL;
+    }
+    t++;
+  }
 
   t = (struct Type*)self + CELLO_NBUILTINS; 
   while (t->name) {
